@@ -100,6 +100,9 @@ func warmUp() {
 	names.ToUnicode("A", true)
 	names.ToUnicode("a62", true)
 	names.FromUnicode('A')
+	// the benign probe workload touches every reader, writer and look-up once, so
+	// that any legitimately lazily initialised cache is full before the baseline
+	probe()
 }
 
 // probe is the observable behaviour of the library on fresh instances.
